@@ -16,6 +16,9 @@ RULE = (
     "seeded 10-100% subset of their invocations; checked: per connection and direction the same PDU sequence crossed the wire, "
     "both sides report the same outcome flags and the user calls returned the same results, and no thread died in run B; "
     "non-trivial = at least one handler actually raised in run B; distinct = distinct run-A digests"
+    " Handlers are bound in the (event, handler) or the (event, handler, [args]) form. A quarter of the seeded cases and 26 directed ones "
+    "exercise the second sentence: an intervention handler of any service raises - at once, or after 1-3 matches - and the wire must show the "
+    "documented failure response (0xC211/0xC311/0xC411/0xC511, 0x0110 for DIMSE-N, no data set on a failed C-FIND) with exactly one final response."
 )
 ASSUMPTIONS = [
     "scenarios are restricted to sequential scripts without local races so that the exchange is schedule-independent; both runs use the same seed, so their schedules are identical unless the raising handler itself perturbs them",
